@@ -36,7 +36,7 @@ ASSUMPTIONS = [
 ]
 RULE = ("cli.cross: (70 metrics + 28 diagrams) x (19 -x dimensions + default) x 8 -type values, each command line run "
         "in-process by the real verif.driver.run on generated datasets (thorough: the full product, twice, on rotating "
-        "datasets; quick: a seeded stratified sample containing every name, every axis and every type); cli.variants: "
+        "datasets; quick: every name with every -x dimension twice — as it stands and with -r / -q values —, the -type dealt round-robin, plus a stratified sample; thorough: second round of the full product with -r / -q); cli.variants: "
         "-r (1 / several / too few values), -q (stored, not stored, 1-3 values), all 8 -b types, all aggregators and a "
         "numeric -agg, climatology without the requested field; an op is non-trivial if the tool produced its output")
 EXHAUSTIVE = {"quick": False, "thorough": True}
@@ -139,7 +139,12 @@ def _cross_full(rng, rounds):
         for name in NAMES:
             for ax in ["-"] + AXES:
                 for t in TYPES:
-                    out.append(_op(_ds(rng, name, k), name, ax, t))
+                    if _ % 2 == 0:
+                        out.append(_op(_ds(rng, name, k), name, ax, t))
+                    elif _requirement(name) == "quantile" or name in QUANT:
+                        out.append(_op(_ds(rng, name, k), name, ax, t, q=rng.choice(["0.5", "0.1,0.9"])))
+                    else:
+                        out.append(_op(_ds(rng, name, k), name, ax, t, r=rng.choice(["1", "5", "0,2,5"])))
                     k += 1
         k += 1
     return out
@@ -162,12 +167,67 @@ def _cross_sample(rng, per_name=5):
     return out
 
 
+_REQ = {}
+
+
+def _requirement(name):
+    """what the class behind a documented name requires on the command line (read from the real classes):
+    'threshold' (-r), 'quantile' (-q) or None — without it the tool stops with its error message before it gets
+    anywhere near the -x dimension, so the cross product gives such names what they need"""
+    if name not in _REQ:
+        import verif.metric
+        import verif.output
+        req = None
+        try:
+            m = verif.metric.get(name)
+        except (SystemExit, Exception):
+            m = None
+        if m is None:
+            try:
+                m = verif.output.get(name)
+            except (SystemExit, Exception):
+                m = None
+        rt = getattr(m, "require_threshold_type", None)
+        if rt is not None:
+            req = "quantile" if "quantile" in str(rt) else "threshold"
+        _REQ[name] = req
+    return _REQ[name]
+
+
+def _cross_pairs(rng):
+    """every name with every -x dimension once (that pair selects the code path of a score or diagram), the -type
+    dealt round-robin from a shuffled deck so that every type meets every name several times"""
+    out, dt = [], []
+    for name in NAMES:
+        for ax in ["-"] + AXES:
+            if not dt:
+                dt = TYPES[:]
+                rng.shuffle(dt)
+            # once as it stands, once with the thresholds / quantile levels many classes ask for (declared through
+            # require_threshold_type or only tested inside the plotting method: reliability, fss, droc, …)
+            out.append(_op(_ds(rng, name), name, ax, dt.pop()))
+            if not dt:
+                dt = TYPES[:]
+                rng.shuffle(dt)
+            if _requirement(name) == "quantile" or name in QUANT:
+                out.append(_op(_ds(rng, name), name, ax, dt.pop(), q=rng.choice(["0.5", "0.1,0.9"])))
+            elif name in DIAGRAMS:
+                # diagrams differ in how many thresholds they accept (exactly one, at least two): give both, with the
+                # output types a diagram has (the others end in the driver's error message whatever the -x is)
+                dt.pop()
+                out.append(_op(_ds(rng, name), name, ax, rng.choice(["plot", "text", "csv"]), r=rng.choice(["1", "5"])))
+                out.append(_op(_ds(rng, name), name, ax, rng.choice(["plot", "text", "csv"]), r="0,2,5"))
+            else:
+                out.append(_op(_ds(rng, name), name, ax, dt.pop(), r=rng.choice(["1", "5", "0,2,5"])))
+    return out
+
+
 def _plan(tier, rng):
     if tier == "thorough":
         cross = _cross_full(rng, 2)
         var = _variants(rng, NAMES, True)
     else:
-        cross = _cross_sample(rng, 5)
+        cross = _cross_pairs(rng) + _cross_sample(rng, 2)
         var = _variants(rng, NAMES, False)
     return cross, var
 
